@@ -146,8 +146,12 @@ def run(ctx):
     w2 = world(ctx)
     I2 = w2.I
     built = []
-    I2.stubs["formulas.formula_grammar"] = lambda I_, a, k: (built.append(a[0]), I_.new_obj("grammar", None, {
-        "parseString": __import__("ptstat.symval", fromlist=["Builtin"]).Builtin("parseString", lambda s_: [(a[0], s_)])}, open_attrs=set()))[1]
+    def fake_grammar(I_, a, k):
+        tab = list(I_.bound("formulas.formula_grammar", a, k).values())[0]
+        built.append(tab)
+        from ptstat.symval import Builtin
+        return I_.new_obj("grammar", None, {"parseString": Builtin("parseString", lambda s_, *x, **y: [(tab, s_)])}, open_attrs=set())
+    I2.stubs["formulas.formula_grammar"] = fake_grammar
     pf = I2.global_name("formulas", "parse_formula")
     T2 = I2.instantiate(I2.get_class("core.PeriodicTable"), ["second"], {}, name="T2", open_attrs=())
     r1 = I2.call(pf, ["X"], {"table": w2.table})
